@@ -59,6 +59,28 @@ def setor_good(stmt):
     return stmt.get_written_variables() | stmt.get_read_variables()
 
 
+def leak_bad(names, phases, queue):
+    for name, phase in zip(names, phases):
+        queue.append((name, phase))
+    for phase_name, stmt in queue:
+        use(name, stmt)
+
+
+def leak_good(names, phases, queue):
+    for name, phase in zip(names, phases):
+        queue.append((name, phase))
+    for phase_name, stmt in queue:
+        use(phase_name, stmt)
+
+
+def identity_bad(kind_a, kind_b):
+    return kind_a.identifier is not kind_b.identifier
+
+
+def identity_good(kind_a, kind_b):
+    return kind_a.identifier != kind_b.identifier and kind_a is not None
+
+
 class _Collab:
     def __init__(self, new_statements, stmt_id_gen, var_name_gen):
         pass
@@ -179,8 +201,87 @@ def _argswap(f, P=None):
     return out
 
 
+def _leak(f):
+    """A loop variable used inside a *different* loop after its own loop has
+    ended (it still holds the last item of that loop)."""
+    fn = f.node
+    par = {}
+    for n in ast.walk(fn):
+        for c in ast.iter_child_nodes(n):
+            par[c] = n
+
+    def enclosing_loops(n):
+        ls = []
+        while n in par:
+            p = par[n]
+            if isinstance(p, (ast.For, ast.While)) and any(n is x for b in p.body for x in ast.walk(b)):
+                ls.append(p)
+            if isinstance(p, (ast.FunctionDef, ast.AsyncFunctionDef, ast.Lambda)) and p is not fn:
+                return None
+            if isinstance(p, (ast.ListComp, ast.GeneratorExp, ast.SetComp, ast.DictComp)):
+                return None
+            n = p
+        return ls
+
+    targets = {}
+    for n in ast.walk(fn):
+        if isinstance(n, ast.For):
+            for t in ast.walk(n.target):
+                if isinstance(t, ast.Name):
+                    targets.setdefault(t.id, []).append(n)
+    other = set()
+    for n in ast.walk(fn):
+        if isinstance(n, ast.Name) and isinstance(n.ctx, ast.Store):
+            if not any(any(n is t for t in ast.walk(lp.target)) for lps in targets.values() for lp in lps):
+                other.add(n.id)
+        elif isinstance(n, ast.arg):
+            other.add(n.arg)
+        elif isinstance(n, ast.ExceptHandler) and n.name:
+            other.add(n.name)
+        elif isinstance(n, (ast.Import, ast.ImportFrom)):
+            for a in n.names:
+                other.add((a.asname or a.name).split(".")[0])
+        elif isinstance(n, (ast.FunctionDef, ast.ClassDef)) and n is not fn:
+            other.add(n.name)
+    out = []
+    seen = set()
+    for n in ast.walk(fn):
+        if isinstance(n, ast.Name) and isinstance(n.ctx, ast.Load) and n.id in targets \
+                and n.id not in other and n.id not in seen:
+            ul = enclosing_loops(n)
+            if not ul:
+                continue
+            own = any(any(lp is u for u in ul) or any(n is x for x in ast.walk(lp.iter))
+                      for lp in targets[n.id])
+            if not own:
+                seen.add(n.id)
+                out.append((n, f"loop variable '{n.id}' is used inside another loop after its own loop "
+                               f"has ended"))
+    return out
+
+
+def _identity(f):
+    """`is` / `is not` between two values that are not singletons."""
+    out = []
+    for x in ast.walk(f.node):
+        if isinstance(x, ast.Compare) and any(isinstance(o, (ast.Is, ast.IsNot)) for o in x.ops):
+            ops = [x.left] + x.comparators
+            if any(isinstance(o, ast.Constant) and (o.value is None or isinstance(o.value, bool))
+                   for o in ops):
+                continue
+            if any(isinstance(o, ast.Name) for o in ops):
+                continue            # a sentinel object held in a name
+            if all(isinstance(o, ast.Call) and dotted(o.func) == "type" for o in ops):
+                continue
+            out.append((x, f"{norm(x, 60)}: identity comparison of values (equal strings need not "
+                           f"be the same object)"))
+    return out
+
+
 LINTS = [
     ("stale", _stale, True),
+    ("leak", _leak, True),
+    ("identity", _identity, True),
     ("argswap", _argswap, True),
     ("zip", _zip, True),
     ("split", _split, True),
@@ -205,7 +306,8 @@ def lints(run, P, prop, extra_files=()):
     rule = f"{prop}.lint"
     run.rule(rule, "repository-specific lints over the anchored files: no value used in "
              "a loop that is only computed in another loop; parallel sequences ordered "
-             "alike; data split by separator; union, not 'or', of variable sets; no "
+             "alike; no loop variable used in a later loop; no identity comparison of values; data "
+             "split by separator; union, not 'or', of variable sets; no "
              "argument passed under another parameter's name; no in-place change of a "
              "description handed in", minimum=3)
     files = sorted(set(anchor_files(prop)) | set(extra_files))
